@@ -412,7 +412,7 @@ class NpRandomRecorder:
 
     def randint(self, *a, **k):
         v = self.real_randint(*a, **k)
-        self.draws.append(int(v))
+        self.draws.extend(int(x) for x in np.ravel(v))  # scalar or array draw: recorded value by value
         return v
 
     def shuffle(self, x, *a, **k):
